@@ -38,9 +38,9 @@ namespace
 
     // ops: [k, item, list, target]
     enum { C_ADD_NEXT, C_ADD_PREV, C_ADD_AFTER, C_ADD_BEFORE, C_DEL, C_DEL_INIT, C_MOVE, C_MOVE_TAIL, C_MOVE_AFTER, C_MOVE_BEFORE,
-           C_MOVE_SORTED, C_INSTEAD, C_DEATH, C_TAKEOVER, C_N };
+           C_MOVE_SORTED, C_INSTEAD, C_DEATH, C_TAKEOVER, C_SAFE_SWEEP, C_SAFE_ENTRY_SWEEP, C_N };
     const char *C_NAME[] = {"add_next", "add_prev", "add_after", "add_before", "del", "del_init", "move", "move_tail", "move_after", "move_before",
-                            "move_sorted", "insert_instead", "death", "head_takeover"};
+                            "move_sorted", "insert_instead", "death", "head_takeover", "for_each_safe+del", "for_each_entry_safe+del"};
 
     struct CDlistWorld : World
     {
@@ -281,6 +281,41 @@ namespace
                     probe("head_takeover");
                     break;
                 }
+                case C_SAFE_SWEEP:
+                case C_SAFE_ENTRY_SWEEP:
+                {
+                    // removal while iterating with the *_safe macros: every node whose id has the parity of t is del_init'ed
+                    int par = t & 1;
+                    if (k == C_SAFE_SWEEP)
+                    {
+                        dlist_head *pos, *nx;
+                        int guard = 0;
+                        dlist_for_each_safe(pos, nx, h)
+                        {
+                            if (++guard > ni + 2) violate("C01/c-dlist-cycle", "dlist_for_each_safe does not terminate");
+                            if ((idof(pos) & 1) == par) dlist_del_init(pos);
+                        }
+                    }
+                    else
+                    {
+                        CItem *pos, *nx;
+                        int guard = 0;
+                        dlist_for_each_entry_safe(pos, nx, h, lnk)
+                        {
+                            if (++guard > ni + 2) violate("C01/c-dlist-cycle", "dlist_for_each_entry_safe does not terminate");
+                            if ((pos->id & 1) == par) dlist_del_init(&pos->lnk);
+                        }
+                    }
+                    std::vector<int> keep;
+                    for (int x : m[l])
+                    {
+                        if ((x & 1) == par) { where[x] = -1; st[x] = UNLINKED; }
+                        else keep.push_back(x);
+                    }
+                    m[l] = keep;
+                    probe("removal_during_safe_iteration");
+                    break;
+                }
                 case C_DEATH:
                     // C nodes have no destructor: their death is dlist_del followed by the release of the memory
                     if (st[i] == LINKED)
@@ -397,6 +432,29 @@ namespace
                         bwd.push_back((*i).id);
                     }
                     if (fwd != m[l]) violate("C01/cxx-dlist-forward", "%s: list %d forward %s, reference %s", when, l, seq(fwd).c_str(), seq(m[l]).c_str());
+                    {
+                        // const iteration and post-increment / decrement walk the same sequence
+                        const XList &cl = L;
+                        std::vector<int> cf;
+                        int g2 = 0;
+                        for (auto i = cl.begin(); i != cl.end(); i++)
+                        {
+                            if (++g2 > ni + 2) violate("C01/cxx-dlist-cycle", "%s: const iteration of list %d does not end", when, l);
+                            cf.push_back((*i).id);
+                        }
+                        if (cf != m[l]) violate("C01/cxx-dlist-forward", "%s: const/post-increment iteration of list %d gives %s, reference %s", when, l, seq(cf).c_str(), seq(m[l]).c_str());
+                        std::vector<int> back;
+                        auto e = L.end();
+                        g2 = 0;
+                        while (e != L.begin())
+                        {
+                            if (++g2 > ni + 2) violate("C01/cxx-dlist-cycle", "%s: decrementing from end() of list %d does not reach begin()", when, l);
+                            --e;
+                            back.push_back((*e).id);
+                        }
+                        std::reverse(back.begin(), back.end());
+                        if (back != m[l]) violate("C01/cxx-dlist-backward", "%s: operator-- from end() of list %d gives %s, reference %s", when, l, seq(back).c_str(), seq(m[l]).c_str());
+                    }
                     std::reverse(bwd.begin(), bwd.end());
                     if (bwd != m[l]) violate("C01/cxx-dlist-backward", "%s: list %d backward (reversed) %s, reference %s", when, l, seq(bwd).c_str(), seq(m[l]).c_str());
                     if (L.size() != m[l].size()) violate("C01/cxx-dlist-size", "%s: list %d size()=%zu reference %zu", when, l, L.size(), m[l].size());
@@ -487,8 +545,17 @@ namespace
                         auto pi = std::find(v.begin(), v.end(), i) - v.begin(), pt = std::find(v.begin(), v.end(), t) - v.begin();
                         if (pi - pt == 1 || pt - pi == 1) probe("move_to_neighbour");
                     }
-                    if (k == X_NEXT_OF) L.move_next(obj, *it[t]);
-                    else if (k == X_PREV_OF) L.move_prev(obj, *it[t]);
+                    if (k == X_NEXT_OF)
+                    {
+                        // alternate between the object overload and the iterator overload (iterator positioned on t)
+                        if ((i + t) & 1) L.move_next(obj, *it[t]);
+                        else L.move_next(obj, XList::iterator(&it[t]->lnk));
+                    }
+                    else if (k == X_PREV_OF)
+                    {
+                        if ((i + t) & 1) L.move_prev(obj, *it[t]);
+                        else L.move_prev(obj, XList::iterator(&it[t]->lnk));
+                    }
                     else if (k == X_NODE_NEXT) obj.lnk.move_next_than(&it[t]->lnk);
                     else obj.lnk.move_prev_than(&it[t]->lnk);
                     {
